@@ -1,70 +1,23 @@
-import OrixModel
-import OrixGen.Kernels
 import Driver.Proto
+import Driver.Ops.Kern
 /-
-Line-protocol driver.  One request per line, one response line per request.
-  kern <g|m> <name> <i|f> <args…>   run a generated (g) or hand-written model (m) kernel on Int / Float
-Unknown or ill-formed requests answer `!err …` (never a default value).
+Line-protocol driver.  One request per line (`<op> <args…>`), one response line per request.
+Each op family lives in its own module `Driver/Ops/*.lean` exposing `handle : List String → String`
+and is registered in `handlers` below.  Stateless by design: an operation *history* travels in one line.
 -/
 namespace Orix.Driver
-open Orix Proto
 
-def flag {α : Type} [Scalar α] (x : α) : Bool := Scalar.beq x (Scalar.lit 1)
-def unflag {α : Type} [Scalar α] (b : Bool) : α := if b then Scalar.lit 1 else Scalar.lit 0
-
-/-- hand-written model kernels by name -/
-def modelRegistry {α : Type} [Scalar α] : List (String × (List α → Option (List α))) := [
-  ("qmul", fun xs => match xs with
-    | [a, b, c, d, e, f, g, h] => some (Quat.mul ⟨a, b, c, d⟩ ⟨e, f, g, h⟩).toList | _ => none),
-  ("qconj", fun xs => match xs with | [a, b, c, d] => some (Quat.conj ⟨a, b, c, d⟩).toList | _ => none),
-  ("qinv", fun xs => match xs with | [a, b, c, d] => some (Quat.inv ⟨a, b, c, d⟩).toList | _ => none),
-  ("qrot", fun xs => match xs with
-    | [a, b, c, d, x, y, z] => some (Quat.rotate ⟨a, b, c, d⟩ ⟨x, y, z⟩).toList | _ => none),
-  ("qsandwich", fun xs => match xs with
-    | [a, b, c, d, x, y, z] => some (Quat.rotateSandwich ⟨a, b, c, d⟩ ⟨x, y, z⟩).toList | _ => none),
-  ("qu2om", fun xs => match xs with | [a, b, c, d] => some (Quat.toMat ⟨a, b, c, d⟩).toList | _ => none),
-  ("matvec", fun xs => match xs with
-    | [a, b, c, d, x, y, z] => some (Mat3.mulVec (Quat.toMat ⟨a, b, c, d⟩) ⟨x, y, z⟩).toList | _ => none),
-  -- rotations: the improper flag travels as a scalar (1 = improper, 0 = proper)
-  ("rmul", fun xs => match xs with
-    | [a, b, c, d, i, e, f, g, h, j] =>
-      let r := Rot.mul ⟨⟨a, b, c, d⟩, flag i⟩ ⟨⟨e, f, g, h⟩, flag j⟩
-      some (r.q.toList ++ [unflag r.improper]) | _ => none),
-  ("rinv", fun xs => match xs with
-    | [a, b, c, d, i] => let r := Rot.inv ⟨⟨a, b, c, d⟩, flag i⟩; some (r.q.toList ++ [unflag r.improper])
-    | _ => none),
-  ("rneg", fun xs => match xs with
-    | [a, b, c, d, i] => let r := Rot.neg ⟨⟨a, b, c, d⟩, flag i⟩; some (r.q.toList ++ [unflag r.improper])
-    | _ => none),
-  ("ract", fun xs => match xs with
-    | [a, b, c, d, i, x, y, z] => some (Rot.act ⟨⟨a, b, c, d⟩, flag i⟩ ⟨x, y, z⟩).toList | _ => none)
+def handlers : List (String × (List String → String)) := [
+  ("kern", Kern.handle)
 ]
-
-def lookup {β} (k : String) : List (String × β) → Option β
-  | [] => none
-  | (n, v) :: r => if n == k then some v else lookup k r
-
-def runKern (which name ty : String) (args : List String) : String :=
-  let go {α : Type} [Scalar α] (parse : String → Option α) (shw : α → String) : String :=
-    let reg : List (String × (List α → Option (List α))) :=
-      if which == "g" then Gen.registry else modelRegistry
-    match lookup name reg with
-    | none => "!err unknown-kernel"
-    | some f =>
-      match parseAll parse args with
-      | none => "!err parse"
-      | some xs =>
-        match f xs with
-        | none => "!err arity"
-        | some ys => showList shw ys
-  if ty == "i" then go (α := Int) parseInt toString
-  else if ty == "f" then go (α := Float) parseFloat showFloat
-  else "!err scalar-kind"
 
 def step (line : String) : String :=
   match (line.trimAscii.toString.splitOn " ").filter (· ≠ "") with
-  | "kern" :: which :: name :: ty :: args => runKern which name ty args
-  | _ => "!err bad-op"
+  | op :: args =>
+    match handlers.find? (·.1 == op) with
+    | some (_, h) => h args
+    | none => "!err bad-op"
+  | [] => "!err bad-op"
 
 partial def loop (h : IO.FS.Stream) (out : IO.FS.Stream) : IO Unit := do
   let line ← h.getLine
